@@ -24,32 +24,44 @@ EXTENDS Naturals, Sequences, FiniteSets, TLC, Json
 
 \* manifest: unknown key; outdir_missing: the last enabled target's output directory is empty; import_manifest: a target
 \* section without output directory in the manifest of an imported package
+\* with two listed versions (cfg.nver = 2): version2 / version2_import: the second listed version or its import is broken;
+\* evolution_first / evolution_last: the current model is incompatible with the first / the last listed version only
 Locations == {"none", "manifest", "outdir_missing", "import_manifest", "main", "import1", "import2", "version", "version_import",
-              "evolution", "duplicate_label", "bad_override"}
+              "evolution", "duplicate_label", "bad_override", "version2", "version2_import", "evolution_first", "evolution_last"}
 ErrKinds  == {"semantic", "syntax"}                 \* an ill-typed model vs. a file that does not parse (only for model files)
 Targets   == {"cpp", "python", "json", "matlab"}
 TargetOrder == <<"cpp", "python", "json", "matlab">>
 OutStates == {"absent", "populated", "inside_pkg"}
 Commands  == {"generate", "validate"}
 
-VARIABLES cfg,           \* [loc, kind, targets, out, cmd]
+VARIABLES cfg,           \* [loc, kind, targets, out, cmd, uses, nver]
           phase, parsed, validatedVersions, evolved, errors, written, generated, exit
 vars == <<cfg, phase, parsed, validatedVersions, evolved, errors, written, generated, exit>>
 
-HasVersions == TRUE                                  \* the base package always lists one previous version (with its own import)
 Closure == {"main", "import1", "import2"}
-VersionClosure == {"version", "version_import"}
+\* the base package lists one or two previous versions (each with its own import); they are validated, and then compared with
+\* the current model, one after the other in the order of the manifest
+Labels == IF cfg.nver = 2 THEN <<"v0", "v1">> ELSE <<"v0">>
+LabelSet == { Labels[i] : i \in 1..Len(Labels) }
+VersionLocs(lbl) == IF lbl = "v0" THEN {"version", "version_import"} ELSE {"version2", "version2_import"}
+EvoLocs(lbl) == IF cfg.nver = 1 THEN {"evolution"} ELSE IF lbl = "v0" THEN {"evolution_first"} ELSE {"evolution_last"}
+VersionClosure == UNION { VersionLocs(lbl) : lbl \in LabelSet }
+NextLabel(done) == LET rest == SelectSeq(Labels, LAMBDA x : x \notin done) IN IF rest = <<>> THEN "none" ELSE rest[1]
 
 \* uses: whether importing packages actually reference types of the packages they import (an unused import that is broken
 \* must be reported all the same)
-Configs == { c \in [loc : Locations, kind : ErrKinds, targets : (SUBSET Targets) \ {{}}, out : OutStates, cmd : Commands, uses : BOOLEAN] :
-               /\ (c.loc \in {"none", "manifest", "outdir_missing", "import_manifest", "evolution", "duplicate_label", "bad_override"}
-                     => c.kind = "semantic")
+Configs == { c \in [loc : Locations, kind : ErrKinds, targets : (SUBSET Targets) \ {{}}, out : OutStates, cmd : Commands, uses : BOOLEAN, nver : {1, 2}] :
+               /\ (c.loc \in {"none", "manifest", "outdir_missing", "import_manifest", "evolution", "duplicate_label", "bad_override",
+                              "evolution_first", "evolution_last"} => c.kind = "semantic")
+               /\ (c.loc \in {"version2", "version2_import", "evolution_first", "evolution_last"} => c.nver = 2)
+               /\ (c.loc = "evolution" => c.nver = 1)
+               /\ (c.nver = 2 => c.loc \in {"none", "version", "version_import", "version2", "version2_import", "evolution_first", "evolution_last"}
+                                  /\ c.out # "inside_pkg" /\ c.uses)
                /\ (c.cmd = "validate" => c.out = "absent" /\ c.targets = {"json"})
                /\ (~c.uses => c.loc \in {"none", "import1", "import2", "version_import"} /\ c.out = "absent") }
 
 Init == /\ cfg \in Configs
-        /\ phase = "start" /\ parsed = {} /\ validatedVersions = {} /\ evolved = FALSE /\ errors = {} /\ written = {}
+        /\ phase = "start" /\ parsed = {} /\ validatedVersions = {} /\ evolved = {} /\ errors = {} /\ written = {}
         /\ generated = {} /\ exit = "running"
 
 ErrAt(l) == cfg.loc = l
@@ -76,16 +88,22 @@ ValidateNs == /\ phase = "parsed"
                  ELSE phase' = "validatedNs" /\ UNCHANGED errors
               /\ UNCHANGED <<cfg, parsed, validatedVersions, evolved, written, generated, exit>>
 
-ValidateVersion == /\ phase = "validatedNs"
-                   /\ IF ErrAt("duplicate_label") THEN Fail("duplicate_label") /\ phase' = "failed" /\ UNCHANGED <<parsed, validatedVersions>>
-                      ELSE /\ parsed' = parsed \cup VersionClosure
-                           /\ IF \E l \in VersionClosure : ErrAt(l) THEN Fail(cfg.loc) /\ phase' = "failed" /\ UNCHANGED validatedVersions
-                              ELSE validatedVersions' = {"v0"} /\ phase' = "versionsValidated" /\ UNCHANGED errors
+\* one listed version at a time (validatePackage's loop over packageInfo.Versions)
+ValidateVersion == /\ phase = "validatedNs" /\ NextLabel(validatedVersions) # "none"
+                   /\ LET lbl == NextLabel(validatedVersions) IN
+                      IF ErrAt("duplicate_label") THEN Fail("duplicate_label") /\ phase' = "failed" /\ UNCHANGED <<parsed, validatedVersions>>
+                      ELSE /\ parsed' = parsed \cup VersionLocs(lbl)
+                           /\ IF \E l \in VersionLocs(lbl) : ErrAt(l) THEN Fail(cfg.loc) /\ phase' = "failed" /\ UNCHANGED validatedVersions
+                              ELSE /\ validatedVersions' = validatedVersions \cup {lbl} /\ UNCHANGED errors
+                                   /\ phase' = IF validatedVersions' = LabelSet THEN "versionsValidated" ELSE "validatedNs"
                    /\ UNCHANGED <<cfg, evolved, written, generated, exit>>
 
-Evolution == /\ phase = "versionsValidated"
-             /\ evolved' = TRUE
-             /\ IF ErrAt("evolution") THEN Fail("evolution") /\ phase' = "failed" ELSE phase' = "validated" /\ UNCHANGED errors
+\* the current model against each listed version in turn (ValidateEvolution's loop); the first incompatibility ends it
+Evolution == /\ phase = "versionsValidated" /\ NextLabel(evolved) # "none"
+             /\ LET lbl == NextLabel(evolved) IN
+                /\ evolved' = evolved \cup {lbl}
+                /\ IF \E l \in EvoLocs(lbl) : ErrAt(l) THEN Fail(cfg.loc) /\ phase' = "failed"
+                   ELSE /\ UNCHANGED errors /\ phase' = IF evolved' = LabelSet THEN "validated" ELSE "versionsValidated"
              /\ UNCHANGED <<cfg, parsed, validatedVersions, written, generated, exit>>
 
 NextTarget == LET rest == SelectSeq(TargetOrder, LAMBDA t : t \in cfg.targets /\ t \notin generated) IN
@@ -107,7 +125,7 @@ Next == Load \/ Override \/ ParseMain \/ ValidateNs \/ ValidateVersion \/ Evolut
 Spec == Init /\ [][Next]_vars
 
 -----------------------------------------------------------------------------
-NoWriteBeforeAllValidated == written # {} => /\ errors = {} /\ validatedVersions = {"v0"} /\ evolved
+NoWriteBeforeAllValidated == written # {} => /\ errors = {} /\ validatedVersions = LabelSet /\ evolved = LabelSet
                                              /\ parsed = Closure \cup VersionClosure
 ErrorImpliesUntouched           == exit = "1" => written = {}
 ErrorAnywhereImpliesExitNonZero == (exit # "running" /\ cfg.loc # "none") => exit = "1"
